@@ -1247,6 +1247,210 @@ static void release_epilogue(ctx_t *c)
     }
 }
 
+/*
+ * Third epilogue: the calibration table far beyond the BFS depth.  A fresh
+ * solved 1x1 calibration is added under 12 new names (the table grows
+ * 1 -> 8 -> 16), every other one is deleted, names are replaced and new
+ * ones added into the holes; after every step each of the epilogue's own
+ * calibrations and each of the model's is found under its name at its
+ * index, no index is issued twice, and get_calibration_end is one past the
+ * highest live index.  Everything added is deleted again, then the model's
+ * view is observed once more.
+ */
+#define NX 12
+static int table_check(ctx_t *c, const int *xi, const char *when)
+{
+    model *m = &c->m;
+    int end = 0;
+    char nm[16];
+
+    for (int ci = 0; ci < MAXCI; ++ci)
+	if (m->cal[ci].live && ci + 1 > end)
+	    end = ci + 1;
+    for (int k = 0; k < 2 * NX; ++k) {
+	if (xi[k] < 0)
+	    continue;
+	if (xi[k] + 1 > end)
+	    end = xi[k] + 1;
+	snprintf(nm, sizeof(nm), "%c%d", k < NX ? 'x' : 'y', k % NX);
+	int f = vnacal_find_calibration(c->vcp, nm);
+	const char *gn = vnacal_get_name(c->vcp, xi[k]);
+	++c->r->transitions;
+	if (f != xi[k] || gn == NULL || strcmp(gn, nm) != 0) {
+	    vf_fail(c->r, "table:lost", "%s: calibration \"%s\" was added at "
+		    "index %d; find gives %d, get_name(%d) gives \"%s\"",
+		    when, nm, xi[k], f, xi[k], gn ? gn : "(null)");
+	    return -1;
+	}
+	for (int j = 0; j < k; ++j)
+	    if (xi[j] == xi[k]) {
+		vf_fail(c->r, "table:index-twice", "%s: index %d issued for "
+			"two live calibrations", when, xi[k]);
+		return -1;
+	    }
+	if (xi[k] < MAXCI && m->cal[xi[k]].live) {
+	    vf_fail(c->r, "table:index-twice", "%s: index %d of the live "
+		    "calibration \"%s\" issued again for \"%s\"", when, xi[k],
+		    names[m->cal[xi[k]].name], nm);
+	    return -1;
+	}
+    }
+    for (int ci = 0; ci < MAXCI; ++ci) {
+	if (!m->cal[ci].live)
+	    continue;
+	int f = vnacal_find_calibration(c->vcp, names[m->cal[ci].name]);
+	++c->r->transitions;
+	if (f != ci) {
+	    vf_fail(c->r, "table:moved", "%s: calibration \"%s\" of index %d "
+		    "is now found at %d", when, names[m->cal[ci].name], ci,
+		    f);
+	    return -1;
+	}
+    }
+    int got = vnacal_get_calibration_end(c->vcp);
+    if (got != end) {
+	vf_fail(c->r, "wrong:vnacal_get_calibration_end", "%s: "
+		"vnacal_get_calibration_end = %d, highest live index + 1 = "
+		"%d", when, got, end);
+	return -1;
+    }
+    return 0;
+}
+
+static void table_epilogue(ctx_t *c)
+{
+    double f1 = 1.0e9;
+    cx mv[3] = { -0.9 + 0.1 * I, 0.8 - 0.2 * I, 0.05 + 0.02 * I };
+    static const int std[3] = { VNACAL_SHORT, VNACAL_OPEN, VNACAL_MATCH };
+    int xi[2 * NX];
+    char nm[16], when[80];
+    vnacal_new_t *vnp = vnacal_new_alloc(c->vcp, VNACAL_T8, 1, 1, 1);
+
+    for (int k = 0; k < 2 * NX; ++k)
+	xi[k] = -1;
+    if (vnp == NULL || vnacal_new_set_frequency_vector(vnp, &f1) != 0) {
+	vf_fail(c->r, "probe:setup", "table epilogue: vnacal_new_alloc");
+	return;
+    }
+    for (int k = 0; k < 3; ++k) {
+	cx *mp[1] = { &mv[k] };
+	if (vnacal_new_add_single_reflect_m(vnp, mp, 1, 1, std[k], 1) != 0) {
+	    vf_fail(c->r, "probe:setup", "table epilogue: add standard");
+	    goto out;
+	}
+    }
+    if (vnacal_new_solve(vnp) != 0) {
+	vf_fail(c->r, "probe:setup", "table epilogue: solve");
+	goto out;
+    }
+    /* 12 new names */
+    for (int k = 0; k < NX; ++k) {
+	int before = c->elog.nonwarn;
+	snprintf(nm, sizeof(nm), "x%d", k);
+	/* add_calibration takes the solution with it */
+	if (k > 0 && vnacal_new_solve(vnp) != 0) {
+	    vf_fail(c->r, "probe:setup", "table epilogue: solve again");
+	    goto out;
+	}
+	xi[k] = vnacal_add_calibration(c->vcp, nm, vnp);
+	++c->r->transitions;
+	expect_ok(c, "vnacal_add_calibration", xi[k], before);
+	if (xi[k] < 0)
+	    goto out;
+	snprintf(when, sizeof(when), "table epilogue, after adding \"%s\"",
+		nm);
+	if (table_check(c, xi, when) != 0)
+	    goto out;
+    }
+    /* delete every other one */
+    for (int k = 1; k < NX; k += 2) {
+	int before = c->elog.nonwarn;
+	int rc = vnacal_delete_calibration(c->vcp, xi[k]);
+	++c->r->transitions;
+	expect_ok(c, "vnacal_delete_calibration", rc, before);
+	if (rc != 0)
+	    goto out;
+	int gone = xi[k];
+	xi[k] = -1;
+	snprintf(when, sizeof(when), "table epilogue, after deleting x%d "
+		"(index %d)", k, gone);
+	if (table_check(c, xi, when) != 0)
+	    goto out;
+	if (vnacal_get_name(c->vcp, gone) != NULL &&
+		!(gone < MAXCI && c->m.cal[gone].live)) {
+	    vf_fail(c->r, "table:ghost", "%s: get_name(%d) still answers",
+		    when, gone);
+	    goto out;
+	}
+    }
+    /* replace live names: the index must not change */
+    for (int k = 0; k < NX; k += 4) {
+	int before = c->elog.nonwarn;
+	snprintf(nm, sizeof(nm), "x%d", k);
+	if (vnacal_new_solve(vnp) != 0) {
+	    vf_fail(c->r, "probe:setup", "table epilogue: solve again");
+	    goto out;
+	}
+	int ci = vnacal_add_calibration(c->vcp, nm, vnp);
+	++c->r->transitions;
+	expect_ok(c, "vnacal_add_calibration", ci, before);
+	if (ci != xi[k]) {
+	    vf_fail(c->r, "add-index:replace", "table epilogue: "
+		    "vnacal_add_calibration(\"%s\") returned %d but the "
+		    "calibration of that name it replaces is at index %d",
+		    nm, ci, xi[k]);
+	    goto out;
+	}
+	snprintf(when, sizeof(when), "table epilogue, after replacing \"%s\"",
+		nm);
+	if (table_check(c, xi, when) != 0)
+	    goto out;
+    }
+    /* new names into the holes and beyond */
+    for (int k = 0; k < NX; ++k) {
+	int before = c->elog.nonwarn;
+	snprintf(nm, sizeof(nm), "y%d", k);
+	if (vnacal_new_solve(vnp) != 0) {
+	    vf_fail(c->r, "probe:setup", "table epilogue: solve again");
+	    goto out;
+	}
+	xi[NX + k] = vnacal_add_calibration(c->vcp, nm, vnp);
+	++c->r->transitions;
+	expect_ok(c, "vnacal_add_calibration", xi[NX + k], before);
+	if (xi[NX + k] < 0)
+	    goto out;
+	snprintf(when, sizeof(when), "table epilogue, after adding \"%s\"",
+		nm);
+	if (table_check(c, xi, when) != 0)
+	    goto out;
+    }
+    /* everything the epilogue added goes away again */
+    for (int k = 2 * NX - 1; k >= 0; --k) {
+	if (xi[k] < 0)
+	    continue;
+	int rc = vnacal_delete_calibration(c->vcp, xi[k]);
+	++c->r->transitions;
+	if (rc != 0) {
+	    vf_fail(c->r, "failed:vnacal_delete_calibration", "table "
+		    "epilogue: delete of index %d failed", xi[k]);
+	    goto out;
+	}
+	xi[k] = -1;
+	if ((k % 5) == 0) {
+	    snprintf(when, sizeof(when), "table epilogue, while deleting");
+	    if (table_check(c, xi, when) != 0)
+		goto out;
+	}
+    }
+    vnacal_new_free(vnp);
+    vnp = NULL;
+    vf_errlog_reset(&c->elog);
+    observe(c);
+out:
+    if (vnp != NULL)
+	vnacal_new_free(vnp);
+}
+
 /* ------------------------------------------------------------------ */
 
 static void run_hist(int tier, const int *ops, int n, vf_result *r)
@@ -1288,6 +1492,7 @@ static void run_hist(int tier, const int *ops, int n, vf_result *r)
 		    c.elog.count ? " [error function called]" : "");
 	}
     }
+    const int last_refused = c.elog.nonwarn;
     if (r->status == VF_OK) {
 	vf_errlog_reset(&c.elog);
 	observe(&c);
@@ -1300,6 +1505,10 @@ static void run_hist(int tier, const int *ops, int n, vf_result *r)
 	vf_errlog_reset(&c.elog);
 	release_epilogue(&c);
     }
+    if (r->status == VF_OK && n > 0) {
+	vf_errlog_reset(&c.elog);
+	table_epilogue(&c);
+    }
     r->nontrivial = (n == 0 || c.issued);
     r->states = 1;
     if (n > 0) {
@@ -1308,7 +1517,7 @@ static void run_hist(int tier, const int *ops, int n, vf_result *r)
 	char *p = strchr(b, '(');
 	if (p) *p = '\0';
 	vf_outcome(r, "%s %s", b, !c.issued ? "n/a" :
-		c.elog.nonwarn ? "refused" : "done");
+		last_refused ? "refused" : "done");
     } else {
 	vf_outcome(r, "initial");
     }
